@@ -41,6 +41,18 @@ theorem preUpdateOrInsert_preserves_inv (fixRoot : Bool) (q : Q K) (id : Nat) (h
   let ⟨q', e, h', _⟩ := inv_preUpdateOrInsert fixRoot q id h hid hsz
   ⟨q', e, h'⟩
 
+/-- **the executable invariant is sound**: a state accepted by `Model.Qbvh.checkInv` — the function the oracle
+evaluates on every Rust state dumped by the harness — satisfies `Inv` -/
+theorem checkInv_implies_inv (q : Q K) (h : checkInv q = true) : Inv q := checkInv_sound q h
+
+/-- likewise the executable box / work-list / proxy-data checks imply `BoxInv`, `Tracked`, `DirtyQueued`, `DataOk` -/
+theorem checks_imply_full (q : Q K) (cur : Nat → Aabb3 K) (h1 : checkInv q = true) (h2 : checkTracked q cur = true)
+    (h3 : checkDirty q = true) (h4 : checkData q = true) : Full q cur :=
+  ⟨checkInv_sound q h1, checkTracked_sound q cur h2, checkDirty_sound q h3, checkData_sound q h4⟩
+
+theorem checkFresh_implies_boxInv (q : Q K) (cur : Nat → Aabb3 K) (h : checkFresh q cur = true) : BoxInv q cur :=
+  checkFresh_sound q cur h
+
 /-- the third path in isolation: **the root split preserves the invariant** (the proxy being inserted is detached) -/
 theorem splitRoot_preserves_inv (fixRoot : Bool) (q q' : Q K) (id : Nat) (pr : Proxy) (h : Inv q)
     (hpr : q.proxies[id]? = some pr) (hdet : pr.node = MAXN) (hsz : q.nodes.size + 2 ≤ MAXN)
